@@ -1213,9 +1213,9 @@ Theorem C02_load_chain_frame :
 Proof. exact LoadsLoopProofs.load_ext_frame_chain. Qed.
 
 (* the statement for the WHOLE style space of ref_write_multi stays a Definition.  Proved below: C02_loads_multi_table (every
-   part a table) and C02_loads_multi_mixed (every part a table or an unfiltered cross-reference stream, mixed chains).  Missing
-   (notes/C02.md, Round 5): a FILTER on the cross-reference stream of a part, object streams across parts, a stream whose Length
-   is a reference (to an object of any part), and the trailer clause of C02_full for the newest trailer *)
+   part a table) and C02_loads_multi_mixed (every part a table or a cross-reference stream with any filter chain, mixed chains;
+   objects AND trailer).  Missing (notes/C02.md, Round 5): object streams across parts, and a stream whose Length is a reference
+   (to an object of any part) *)
 Definition C02_loads_multi_partial : Prop :=
   forall (st : fstyle) (parts : list mpart) (a : adoc) (file : bytes),
     ref_write_multi st parts a = Some file ->
@@ -1286,22 +1286,26 @@ Proof. exact LoadsMultiExample.example_loads_multi_table. Qed.
 (* ---------------------------------------------------------------------------------------------
    FILES OF SEVERAL SECTIONS, EITHER FORMAT PER PART -- MIXED CHAINS (Proofs/LoadsMultiXSec.v, LoadsMultiMixed.v,
    LoadsMultiMixedFull.v).  Every part of ref_write_multi ends with a cross-reference TABLE and trailer, or with a
-   cross-reference STREAM (no filter): ANY W (W[0] = 0 / W[2] = 0 where legal, widened where too narrow), ANY Index partition
-   or the maximal runs, Index left out when it is the default, the stream object in any spelling, its dictionary holding the
-   document's trailer entries, Size and Prev; a table may name a stream by Prev and vice versa.  The cross-reference stream of
+   cross-reference STREAM: ANY W (W[0] = 0 / W[2] = 0 where legal, widened where too narrow), ANY Index partition or the maximal
+   runs, Index left out when it is the default, no filter or ANY FILTER CHAIN of the reference writer (ASCII85, ASCIIHex, Flate in
+   stored blocks, ASCII85 around Flate, with Flate every PNG predictor / row types / geometry: C02_filter_chain_decodes), the
+   stream object in any spelling, its dictionary holding the document's trailer entries, Size and Prev; a table may name a stream
+   by Prev and vice versa.  The cross-reference stream of
    a part is one more top-level object of that part and lists ITSELF; the loader keeps these objects (as it does for a
    single-section file, C02_loads_stream_partial), so the statement excepts their numbers [part_xids parts] exactly as C02_full
    excepts [structural_nums].  For every other identifier the loaded object and [content a] agree by value: none missing, none
    added, superseded definitions not delivered, an object listed again keeps its definition.
    THE DOMAIN [C02_multi_domain st parts a file]: as C02_multi_domain_table, with [parts_ok] = per part, AT THE VALUES ITS LAYOUT
-   HAS (position, Prev, the merge so far, the highest number so far): a table part: [trailer_dom]; a stream part: no filter, and
-   the stream dictionary (Type, Size, W, Index, the document's trailer entries, Prev, Length) is spelled legally in the style of
+   HAS (position, Prev, the merge so far, the highest number so far): a table part: [trailer_dom]; a stream part: with a filter the entry width
+   is a machine integer and the document's trailer has no DecodeParms (the loader is load_ext with Stream::decompress = decompress_ref),
+   and the stream dictionary (Type, Size, W, Index, the document's trailer entries, Prev, Filter / DecodeParms, Length) is spelled legally in the style of
    the stream object ([spell_wf], nesting <= MAX_DEPTH); the document's trailer holds none of Size / Prev / Encrypt / XRefStm /
    Index / Filter; object numbers incl. the cross-reference streams' fit u32.
    --------------------------------------------------------------------------------------------- *)
 Definition C02_multi_domain (st : fstyle) (parts : list mpart) (a : adoc) (file : bytes) : Prop :=
   s_ostms st = [] /\
-  LoadsMultiMixed.parts_ok st a (part_xids parts) parts (blen (RefWriter.header st (a_version a))) None [] 0 /\
+  LoadsMultiMixed.parts_ok st a LoadsFilterProofs.decompress_ref LoadsFilterProofs.can_ref (part_xids parts) parts
+    (blen (RefWriter.header st (a_version a))) None [] 0 /\
   Forall LoadsTableProofs.top_ok (LoadsTableProofs.tops st a) /\ Utf.utf8_decode (a_version a) <> None /\
   (dict_get (a_trailer a) RefWriter.K_Size = None /\ dict_get (a_trailer a) K_Prev = None /\
    dict_get (a_trailer a) K_Encrypt = None /\ dict_get (a_trailer a) K_XRefStm = None /\
@@ -1343,6 +1347,13 @@ Theorem C02_example_loads_multi_mixed :
   exists file, ref_write_multi LoadsMultiExample.ex_fstyle LoadsMultiExample.ex_parts_x LoadsMultiExample.ex_adoc = Some file /\
                C02_multi_domain LoadsMultiExample.ex_fstyle LoadsMultiExample.ex_parts_x LoadsMultiExample.ex_adoc file.
 Proof. exact LoadsMultiExample.example_loads_multi_mixed. Qed.
+
+(* non-vacuity of the filtered ending: the same chain, the cross-reference stream of part 1 encoded ASCII85 around Flate with a PNG
+   predictor (Predictor 12, row types 4 1 3), Filter and DecodeParms written as arrays *)
+Theorem C02_example_loads_multi_filtered :
+  exists file, ref_write_multi LoadsMultiExample.ex_fstyle LoadsMultiExample.ex_parts_f LoadsMultiExample.ex_adoc = Some file /\
+               C02_multi_domain LoadsMultiExample.ex_fstyle LoadsMultiExample.ex_parts_f LoadsMultiExample.ex_adoc file.
+Proof. exact LoadsMultiExample.example_loads_multi_filtered. Qed.
 
 (* non-vacuity of C02_full: the object-stream example (stream format) and the Length-reference example (table format)
    are in the domain *)
@@ -1490,6 +1501,7 @@ Print Assumptions C02_loads_multi_table.
 Print Assumptions C02_example_loads_multi_table.
 Print Assumptions C02_loads_multi_mixed.
 Print Assumptions C02_example_loads_multi_mixed.
+Print Assumptions C02_example_loads_multi_filtered.
 Print Assumptions C02_example_full.
 Print Assumptions C02_example_loads_table.
 Print Assumptions C02_example_object.
